@@ -332,7 +332,14 @@ impl Slave {
                         if self.cfg.in_len == 0 && self.cfg.sc_for_empty && !self.diag_pending {
                             vec![wire::SC]
                         } else {
-                            let inputs = self.rng.bytes(self.cfg.in_len);
+                            let mut inputs = self.rng.bytes(self.cfg.in_len);
+                            if self.cfg.delimiter_payload {
+                                for b in inputs.iter_mut() {
+                                    if *b & 3 != 0 {
+                                        *b = [0x10u8, 0x68, 0xA2, 0xDC, 0xE5, 0x16, 0x00, 0x68][usize::from(*b >> 5)];
+                                    }
+                                }
+                            }
                             self.resp(sa, None, None, status, inputs)
                         }
                     } else if self.state == SlaveState::DataExch && Some(sa) == self.master {
